@@ -339,7 +339,8 @@ def write_replay_file(ctx, cand, detail):
     os.makedirs(d, exist_ok=True)
     payload = {"property": ctx.pid, "case": cand["case"], "obligation": cand["name"], "kind": cand["kind"], "site": cand.get("site"),
                "scope": cand.get("scope"), "path_decisions": cand.get("path"), "model": cand.get("model"), "detail": cand.get("detail"),
-               "replay_result": detail, "harness": cand.get("binary"), "profile": cand.get("profile"),
+               "replay_result": detail, "harness": cand.get("binary"), "harness_flags": (getattr(ctx, "bininfo", {}).get(cand.get("binary")) or {}).get("flags", []),
+               "profile": cand.get("profile"),
                "how_to_replay": "bin/check %s --replay <this file>" % ctx.pid}
     h = hashlib.sha1(json.dumps(payload, sort_keys=True).encode()).hexdigest()[:12]
     p = os.path.join(d, h + ".json")
